@@ -74,6 +74,7 @@ static CO_ERR COTParaRestoreRead(struct CO_OBJ_T *obj, struct CO_NODE_T *node, v
     if (CO_GET_SUB(obj->Key) == 0) {
         result = uint8->Read(obj, node, buffer, size);
     } else {
+        ASSERT_EQU_ERR(size, 4u, CO_ERR_BAD_ARG);
         pg = (CO_PARA *)(obj->Data);
         if (pg->Default != NULL) {
             *(uint32_t *)buffer = (uint32_t)1;
